@@ -80,3 +80,13 @@ func UtilExists(path string) bool {
 	_, err := os.Stat(path)
 	return !os.IsNotExist(err)
 }
+
+// SimProcs is the number of processors the simulated machine reports.
+var SimProcs = 4
+
+// RuntimeGOMAXPROCS, RuntimeNumCPU and RuntimeGosched replace their runtime counterparts in
+// instrumented code: how many goroutines a library starts must not depend on the machine the
+// simulation runs on (it is a parameter of the run).
+func RuntimeGOMAXPROCS(n int) int { return SimProcs }
+func RuntimeNumCPU() int          { return SimProcs }
+func RuntimeGosched()             { Yield(SiteSpecial) }
